@@ -53,7 +53,7 @@ def gen(rng, tier, quarantine=()):
         op = call_shape(rng, qual, fnir, "k1")
         op["tape"] = gen_tape(rng, 8)
         ops.append(op)
-    return {"prog": "forms", "ops": ops}
+    return {"prog": "forms", "ops": ops, "activation_inv": "C02.activation"}
 
 
 def _quarantined(qual, quarantine):
